@@ -99,6 +99,18 @@ _W = {}
 
 def init_worker(assertions, open_keys):
     faulthandler.enable()
+    import signal
+
+    faulthandler.register(signal.SIGUSR1, all_threads=True)
+    try:
+        import resource
+
+        # a corrupt structure (parent cycle) can make a library call allocate without
+        # bound until the watchdog fires: make that a MemoryError, not an OOM kill
+        lim = 4 << 30
+        resource.setrlimit(resource.RLIMIT_AS, (lim, lim))
+    except Exception:  # noqa: BLE001
+        pass
     boot.setup(assertions)
     _W["assert"] = assertions
     _W["open"] = set(open_keys)
@@ -149,8 +161,9 @@ def work_chunk(prop, tier, seed, runs, want_digests=False, sweep=True):
         if len(samples) < 2 and res.ops:
             samples.append({"run": r, "cfg": m.brief_cfg(cfg), "ops": res.ops[:12], "violation": None})
         if res.violation is not None:
-            if len(violations) < 3:
-                violations.append({"run": r, "cfg": cfg, "ops": res.ops, "violation": res.violation.as_dict()})
+            violations.append({"run": r, "cfg": cfg, "ops": res.ops, "violation": res.violation.as_dict()})
+            if len(violations) >= 3:
+                break  # this tree is broken; do not burn the budget (hangs cost a watchdog period each)
             continue
         if sweep and hasattr(m, "sweep"):
             for cfg2, ops2 in m.sweep(cfg, res, rng, tier):
@@ -162,11 +175,13 @@ def work_chunk(prop, tier, seed, runs, want_digests=False, sweep=True):
                 stats["sweep_runs"] = stats.get("sweep_runs", 0) + 1
                 sigs |= res2.sigs
                 states |= res2.states
-                if res2.violation is not None and len(violations) < 3:
+                if res2.violation is not None:
                     violations.append(
                         {"run": r, "cfg": cfg2, "ops": ops2, "violation": res2.violation.as_dict(), "sweep": True}
                     )
                     break
+            if len(violations) >= 3:
+                break
     if pending and hasattr(m, "post_chunk"):
         more, pstats = m.post_chunk(pending, tier)
         merge_stats(stats, pstats)
@@ -397,8 +412,11 @@ def check(prop, tier, seed, workers=16, runs=None, wall_cap=None, verbose=True):
         agg = {"stats": {}, "sigs": set(), "states": set(), "known": {}, "samples": [], "evaluations": 0, "steps": 0, "cpu_s": 0.0}
         completed = 0
         capped = False
+        stopped_early = False
         for f in as_completed(futs, timeout=wall_cap + 60):
             a, part = futs[f]
+            if f.cancelled():
+                continue
             res = f.result()
             merge_stats(agg["stats"], res["stats"])
             merge_stats(agg["known"], res["known"])
@@ -411,11 +429,16 @@ def check(prop, tier, seed, workers=16, runs=None, wall_cap=None, verbose=True):
             if len(agg["samples"]) < 3:
                 agg["samples"].extend(res["samples"][:1])
             violations_found.extend(res["violations"])
+            n_real = len([v for v in violations_found if v["violation"]["property"] != "GUARD"])
+            if (n_real >= 3 or len(violations_found) >= 12) and not stopped_early:
+                # enough to report; cancel what has not started yet
+                stopped_early = True
+                for g in futs:
+                    g.cancel()
             if time.time() - t_start > wall_cap and not capped:
                 capped = True
                 for g in futs:
                     g.cancel()
-                break
         search_wall = time.time() - t_start
 
         # 4. violations: minimise, replay in a fresh interpreter, report
@@ -481,6 +504,7 @@ def check(prop, tier, seed, workers=16, runs=None, wall_cap=None, verbose=True):
                 "planned_runs": planned,
                 "completed_runs": completed,
                 "wall_capped": capped,
+                "stopped_early_on_violations": stopped_early,
                 "operations_executed": agg["steps"],
                 "distinct_states": len(agg["states"]),
                 "runs_per_hour": int(agg["evaluations"] / max(search_wall, 1e-6) * 3600),
